@@ -403,27 +403,28 @@ Proof. exact tr_lbuf_saved_keep. Qed.
 Print Assumptions C02_tr_lbuf_saved_keep.
 
 (* not vacuous, and the translated functions RUN: the struct of a buffer with one log entry (seq 4) below the undo cursor,
-   counter 5, saved at 3 (so: modified), marks -1, in block 12 behind the program's globals, bufs[0].lb pointing to it.
+   counter 5, saved at 3 (so: modified), marks -1, in the first block behind the program's globals (B = length cglobals; its log in block B + 1), bufs[0].lb pointing to it.
    lbuf_seq returns 4; lbuf_modified returns 1 and stores 6 into cell 68 only; after lbuf_saved(lb, 0) the next
    lbuf_modified returns 0; after lbuf_unsaved it returns 1 again *)
 Example C02_tr_nonvacuous :
+  let B := length cglobals in      (* the first block behind the program's globals, whatever the whitelist makes of them *)
   let lb0 := {| ln := []; hist := [{| pos := 0; n_ins := 1; n_del := 0; del := None; ins := Some [97; 10]%N; seq := 4 |}];
                 hist_u := 1; hist_sz := 128; useq := 5; useq_zero := 3; useq_last := 2 |} in
   let blk0 := repeat (VInt (-1)) 32 ++ repeat (VInt 0) 32 ++
-              [VInt 0; VInt 0; VInt 0; VInt 0; VInt 5; VPtr 13 0; VInt 128; VInt 1; VInt 1; VInt 3; VInt 2] in
+              [VInt 0; VInt 0; VInt 0; VInt 0; VInt 5; VPtr (S B) 0; VInt 128; VInt 1; VInt 1; VInt 3; VInt 2] in
   let hb0 := [VInt 0; VInt 0; VInt 0; VInt 1; VInt 0; VInt 0; VInt 4; VInt 0; VInt 0] in
-  let m0 := upd cglobals G_bufs (upd gb_bufs B_lb (VPtr 12 0)) ++ [blk0; hb0] in
-  let cell m i := match nth_error m 12%nat with Some b => nth_error b i | None => None end in
-  lbuf_rep m0 12 blk0 lb0 /\ lbuf_ints lb0 /\
-  callf cprog 1 3 F_lbuf_seq [VPtr 12 0] m0 = Ok (VInt 4, m0) /\
-  callf cprog 1 3 F_lbuf_modified [VPtr 12 0] m0 = Ok (VInt 1, upd m0 12 (upd blk0 L_useq (VInt 6))) /\
-  match callf cprog 1 3 F_lbuf_saved [VPtr 12 0; VInt 0] m0 with
+  let m0 := upd cglobals G_bufs (upd gb_bufs B_lb (VPtr B 0)) ++ [blk0; hb0] in
+  let cell m i := match nth_error m B with Some b => nth_error b i | None => None end in
+  lbuf_rep m0 B blk0 lb0 /\ lbuf_ints lb0 /\
+  callf cprog 1 3 F_lbuf_seq [VPtr B 0] m0 = Ok (VInt 4, m0) /\
+  callf cprog 1 3 F_lbuf_modified [VPtr B 0] m0 = Ok (VInt 1, upd m0 B (upd blk0 L_useq (VInt 6))) /\
+  match callf cprog 1 3 F_lbuf_saved [VPtr B 0; VInt 0] m0 with
   | Ok (_, m1) => cell m1 L_useq_zero = Some (VInt 4) /\ cell m1 L_useq = Some (VInt 6) /\
-      match callf cprog 1 3 F_lbuf_modified [VPtr 12 0] m1 with
+      match callf cprog 1 3 F_lbuf_modified [VPtr B 0] m1 with
       | Ok (v, m2) => v = VInt 0 /\
-          match callf cprog 1 3 F_lbuf_unsaved [VPtr 12 0] m2 with
+          match callf cprog 1 3 F_lbuf_unsaved [VPtr B 0] m2 with
           | Ok (_, m3) => cell m3 L_useq_zero = Some (VInt (-1)) /\
-                          (exists m4, callf cprog 1 3 F_lbuf_modified [VPtr 12 0] m3 = Ok (VInt 1, m4))
+                          (exists m4, callf cprog 1 3 F_lbuf_modified [VPtr B 0] m3 = Ok (VInt 1, m4))
           | Err _ => False
           end
       | Err _ => False
@@ -431,9 +432,9 @@ Example C02_tr_nonvacuous :
   | Err _ => False
   end.
 Proof.
-  cbv zeta. split.
-  { constructor; try reflexivity. intros _. exists 13%nat, [VInt 0; VInt 0; VInt 0; VInt 1; VInt 0; VInt 0; VInt 4; VInt 0; VInt 0].
-    split; [discriminate|]. split; [reflexivity|]. split; [reflexivity|]. intros [|i] Hi; [reflexivity|cbn in Hi; lia]. }
+  cbv zeta. set (B := length cglobals). vm_compute in B. subst B. split.
+  { constructor; try reflexivity. intros _. eexists (S _), [VInt 0; VInt 0; VInt 0; VInt 1; VInt 0; VInt 0; VInt 4; VInt 0; VInt 0].
+    split; [apply Nat.neq_succ_diag_l|]. split; [reflexivity|]. split; [reflexivity|]. intros [|i] Hi; [reflexivity|cbn in Hi; lia]. }
   split. { unfold lbuf_ints, i32. cbn. repeat split; try lia. repeat constructor; cbn; lia. }
   vm_compute. repeat split. eexists. reflexivity.
 Qed.
